@@ -22,6 +22,17 @@ func WriteEvidence(sc Scenario, tier string, seed uint64, a *aggregate, wall flo
 	if len(samples) == 0 {
 		samples = []any{"(no sample recorded)"}
 	}
+	// the first two plans of the tier, written out (first 14 steps each): what a case looks like
+	for i := 0; i < 2 && i < sc.Runs(tier); i++ {
+		p := sc.Generate(seed, tier, i)
+		steps := p.Steps
+		more := 0
+		if len(steps) > 14 {
+			more = len(steps) - 14
+			steps = steps[:14]
+		}
+		samples = append(samples, map[string]any{"plan_index": i, "entropy_seed": p.Seed, "cfg": p.Cfg, "steps": steps, "further_steps": more})
+	}
 	cov := map[string]any{
 		"evaluations":               a.evals,
 		"distinct_nontrivial":       len(a.nontriv),
